@@ -24,7 +24,7 @@ RULE = ("case = one generated project + history (dev edits: delete top-ID statem
         "additionally a sweep of every (k, action) of one edit run of the history, each followed by the adversarial suffix. "
         "An evaluation is one simulated process; non-trivial = history in which an abnormal ending actually fired; distinct = "
         "(case, step, k, action).")
-PROBES = ["top_of_id_range", "highest_id_deleted_then_run", "abnormal_then_clean_run", "kill_in_history", "signal_in_history", "ioerr_in_history",
+PROBES = ["two_signals_in_history", "top_of_id_range", "highest_id_deleted_then_run", "abnormal_then_clean_run", "kill_in_history", "signal_in_history", "ioerr_in_history",
           "lock_write_failed", "fresh_project_no_lock", "moved_statement", "check_run_in_history"]
 ASSUMPTIONS = ["lock file in use (use_cache true or omitted) and never removed by the developer",
                "initial lock absent or ahead of every planted ID"]
@@ -94,6 +94,13 @@ def choose_fault(rng, ops, phm):
         wr = [o.k for o in ops if o.kind in ("WRITE", "OPEN_W")]
         if wr:
             return [{"from": rng.choice(wr), "kinds": ["WRITE", "OPEN_W"], "act": "fail", "errno": "ENOSPC"}], "class:disk-full"
+    if r < 0.22:
+        # a stop request followed by a second one later in the same run
+        ks = sorted(rng.sample(range(1, len(ops) + 1), 2)) if len(ops) >= 2 else [1, 1]
+        s1 = {"k": ks[0], "act": rng.choice(["sig_before", "sig_after"]), "signo": rng.choice([2, 15])}
+        s2 = {"k": ks[1], "act": "sig_after", "signo": rng.choice([2, 15])}
+        if ks[0] != ks[1]:
+            return [s1, s2], phm.get(ks[0], "other")
     cands = common.candidates(rng, ops, phm, ABNORMAL, False, signos=(2, 15))
     w = dict(common.HOT)
     w.update({"lock-write": 10, "read-after-mutation": 5, "startup": 1.5})
@@ -204,6 +211,9 @@ def execute(wm0, knobs, steps, seed, ctx, rng=None):
             fired = bool(res.fired_counts() or res.signals)
             f0 = plan["faults"][0] if abnormal else None
             fcls = scen.fault_class(f0) if f0 else "none"
+            if abnormal and len(plan["faults"]) > 1:
+                fcls = "+".join(scen.fault_class(f) for f in plan["faults"])
+                ctx.probes["two_signals_in_history"] += 1
             site = st.get("site", "none")
             if abnormal and fired:
                 site = actual_site(res, fcls, site)
